@@ -25,6 +25,8 @@ package main
 //   at exactly <ver> (control: this process CAN negotiate TLS 1.0 .. 1.3, so
 //   a refusal seen in tlssrv/tlscli is the library's doing).
 //
+// scenarios "tlschainrole", "tlsroles", "tlsresume", "tlsresumectl": see c14b.go
+//
 // verifies = x509.Certificate.Verify of the presented leaf with the pool
 // configured on the modbus side, the presented intermediates, the usage and
 // host name crypto/tls would use, now; computed when the case is generated,
@@ -69,6 +71,14 @@ type c14PKI struct {
 	cliOrder  []string
 	srvOrder  []string
 	serialCtr int64
+	// c14b.go: credentials of the scenarios tlschainrole / tlsroles / tlsresume
+	// (kept out of cliOrder / srvOrder: the tlssrv / tlscli matrices are unchanged)
+	chainOrder []string                  // client credentials presenting leaf + issuer, in clients[]
+	roleOrder  []string                  // client credentials that all carry serial number 1, in clients[]
+	rolePool   *x509.CertPool            // the client CA pool of the tlsroles server
+	rootSets   map[string]*x509.CertPool // named root pools of the tlsresume clients
+	rootOrder  []string
+	extsOf     map[string]string // extension tokens of certificates crypto/x509 refuses to parse, by credential name
 }
 
 var (
@@ -97,14 +107,17 @@ func c14NewKey(rsaKeys bool) crypto.Signer {
 }
 
 type c14Spec struct {
-	cn        string
-	isCA      bool
-	notBefore time.Duration // relative to now
-	notAfter  time.Duration
-	eku       []x509.ExtKeyUsage
-	ips       []net.IP
-	dns       []string
-	role      []byte // DER value of a Modbus Role extension (nil: none)
+	cn          string
+	isCA        bool
+	notBefore   time.Duration // relative to now
+	notAfter    time.Duration
+	eku         []x509.ExtKeyUsage
+	ips         []net.IP
+	dns         []string
+	role        []byte           // DER value of a Modbus Role extension (nil: none)
+	serial      int64            // fixed serial number (0: the next one of the counter)
+	extra       []pkix.Extension // further extensions, after the role extension
+	mayNotParse bool             // crypto/x509 may refuse to parse the result (duplicated extension)
 }
 
 // issue creates a key pair and a certificate signed by parent (self-signed when parent is nil)
@@ -127,9 +140,13 @@ func (p *c14PKI) issue(rsaKeys bool, s c14Spec, parent *c14Signer) (*c14Signer, 
 	if s.isCA {
 		tmpl.KeyUsage |= x509.KeyUsageCertSign
 	}
+	if s.serial != 0 {
+		tmpl.SerialNumber = big.NewInt(s.serial)
+	}
 	if s.role != nil {
 		tmpl.ExtraExtensions = []pkix.Extension{{Id: oidKinds["r"], Value: s.role}}
 	}
+	tmpl.ExtraExtensions = append(tmpl.ExtraExtensions, s.extra...)
 	if _, ok := key.(*rsa.PrivateKey); ok {
 		tmpl.KeyUsage |= x509.KeyUsageKeyEncipherment
 	}
@@ -143,6 +160,10 @@ func (p *c14PKI) issue(rsaKeys bool, s c14Spec, parent *c14Signer) (*c14Signer, 
 	}
 	cert, err := x509.ParseCertificate(der)
 	if err != nil {
+		if s.mayNotParse {
+			// only the raw bytes are of any use (see c14RawCert)
+			return &c14Signer{cert: &x509.Certificate{Raw: der}, key: key}, der
+		}
 		panic(err)
 	}
 	return &c14Signer{cert: cert, key: key}, der
@@ -242,6 +263,8 @@ func c14GetPKI(keyset string) *c14PKI {
 	addS("inter", c14TLSCert(sViaInter, inter), p.caPool)
 	addS("intermissing", c14TLSCert(sViaInter), p.caPool)
 	addS("none", nil, p.caPool)
+
+	c14ExtendPKI(p, rsaKeys, ca, foreign, inter)
 
 	c14PKISet[keyset] = p
 	return p
